@@ -2,7 +2,7 @@
    [run cfg st0 rs] is the state after ANY request sequence rs (API GET / DELETE with raw query arguments, value changes,
    clock advances) from ANY store and clock with an empty cache: so "for every reachable state of the sample cache".
    [abstract] (Spec.v) says which effective request the raw arguments denote (defaults and validation). *)
-From QT Require Import C18.Spec C18.SortThm C18.ApiThm C18.CacheThm C18.MainThm C18.Interleave C18.InterleaveThm C18.SegmentsThm.
+From QT Require Import C18.Spec C18.SortThm C18.ApiThm C18.CacheThm C18.MainThm C18.Interleave C18.InterleaveThm C18.SegmentsThm C18.RetypeThm.
 Open Scope Z_scope.
 
 (* a range query answers exactly the stored samples of that port with from <= time < to, oldest first, at most
@@ -148,6 +148,18 @@ Theorem C18_alone_is_three_segments : forall cfg s id r,
   /\ (outs = [RNone; RNone; o] \/ outs = [o; ROther; ROther]).
 Proof. exact alone_is_three_segments. Qed.
 Print Assumptions C18_alone_is_three_segments.
+
+(* a port replaced by a port of another kind under the same id (removed with its history, registered again): the cache
+   invariant carries over to the NEW configuration, so the theorems above apply with it — answers are typed like the port
+   as it is registered now, for every kind of the old and of the new port *)
+Theorem C18_port_replacement_keeps_cache_invariant : forall cfg cfg' st p,
+  cache_ok cfg st ->
+  cfg_min_age cfg' = cfg_min_age cfg ->
+  (forall p', p' <> p -> port_kind cfg' p' = port_kind cfg p') ->
+  cache_ok cfg' (hist_remove_samples st p None None)
+  /\ st_store (hist_remove_samples st p None None) = filter (fun s => negb (s_oid s =? p)) (st_store st).
+Proof. exact port_replacement_keeps_invariant. Qed.
+Print Assumptions C18_port_replacement_keeps_cache_invariant.
 
 (* non-vacuity: the premises are met by concrete requests; a cached answer is served (after the first request the cache
    holds timestamp 1500) in the request's order, with the duplicate, and after DELETE the cache is gone *)
